@@ -221,6 +221,7 @@ func checkC16(ctx *Ctx, r *Report) {
 	c16SecondHunt(ctx, r)
 	c16ThirdHunt(ctx, r)
 	c16FourthHunt(ctx, r)
+	c16FifthHunt(ctx, r)
 	c16DismissalNeedsLostOptions(ctx, r)
 }
 
@@ -1057,4 +1058,124 @@ func c16FourthHunt(ctx *Ctx, r *Report) {
 	}
 	r.Count("hunted clauses of the derivation (4th hunt)", n)
 	r.Floor("hunted clauses of the derivation (4th hunt)", 2)
+}
+
+// c16FifthHunt — fifth hunt of C16:
+//   - (finding, shared with C06/C02) the Go builder of an object that is a struct through a *nullable* reference;
+//   - Java writes the constants a builder assigns with formatRefType: what it returns for a destination that is neither
+//     an enum nor a union wrapper has to be a literal of the destination's scalar kind (`1L` for a Long, `2.0` for a
+//     Double) — formatRefType formats no raw value itself, and what it delegates to consults the scalar kind;
+//   - the Java templates "assignment_setup" (which declares `<name>Resource` and reads the map of builders) and
+//     "assignment_value" (which reads `<name>Resource`) have to derive <name> the same way — from the argument.
+func c16FifthHunt(ctx *Ctx, r *Report) {
+	n := c06GoNamedOptionalBuilder(ctx, r)
+	// (b)
+	if fn := ctx.LookupMethod("internal/jennies/java", "typeFormatter", "formatRefType"); fn == nil {
+		r.Undecided("anchor lost: java.typeFormatter.formatRefType")
+	} else if fd, p := ctx.DeclOf(fn); fd != nil {
+		info := p.TypesInfo
+		raw := false
+		consults := false
+		ast.Inspect(fd.Body, func(m ast.Node) bool {
+			rs, ok := m.(*ast.ReturnStmt)
+			if !ok || len(rs.Results) != 1 {
+				return true
+			}
+			c, ok := ast.Unparen(rs.Results[0]).(*ast.CallExpr)
+			if !ok {
+				return true
+			}
+			f := callee(info, c)
+			if f == nil {
+				return true
+			}
+			if f.Pkg() != nil && f.Pkg().Path() == "fmt" {
+				raw = true
+				return true
+			}
+			if gd, _ := ctx.DeclOf(f); gd != nil {
+				ast.Inspect(gd.Body, func(q ast.Node) bool {
+					if sel, ok := q.(*ast.SelectorExpr); ok && sel.Sel.Name == "ScalarKind" {
+						consults = true
+					}
+					return true
+				})
+			}
+			return true
+		})
+		n++
+		r.Check(!raw && consults, "kinds/java-literals-typed", "java.typeFormatter.formatRefType writes a value assigned by a builder", fd.Pos(), "as a literal of the scalar kind of its destination",
+			"formatRefType writes the value with fmt's %#v whatever the destination: the constructor constant of `Main: {version: 1}` becomes `this.internal.version = 1;` on a `Long` field (incompatible types: int cannot be converted to Long), `ratio: 2.0` becomes `= 2;` on a Double — the builder does not compile")
+	}
+	// (c)
+	if ts, err := loadTemplates(ctx, "java"); err != nil {
+		r.Undecided("cannot parse java templates: %v", err)
+	} else {
+		setup, value := ts.trees["assignment_setup"], ts.trees["assignment_value"]
+		if setup == nil || value == nil {
+			r.Undecided("anchor lost: java templates assignment_setup / assignment_value")
+		} else {
+			read := c16NamesBefore(value.Root, []string{"Resource"})
+			declared := c16NamesBefore(setup.Root, []string{"Resource", ".entrySet"})
+			agree := len(read) > 0 && len(declared) > 0
+			for name := range declared {
+				if !read[name] {
+					agree = false
+				}
+			}
+			var got []string
+			for name := range declared {
+				got = append(got, name)
+			}
+			sort.Strings(got)
+			n++
+			r.Check(agree, "skeleton/java-map-of-builders-named-after-argument", "java assignment_setup names the map it builds from a map of builders", token.NoPos, "the way assignment_value reads it",
+				fmt.Sprintf("assignment_setup declares and fills `<name>Resource` from `<name>.entrySet()` with <name> = %v while assignment_value reads it under %v: `Main: {panel_map: [string]: Inner}` gives `panel_mapResource` filled from `panel_map` (the argument is `panelMap`) and `this.internal.panelMap = panelMapResource;` — cannot find symbol", got, keysOf(read)))
+		}
+	}
+	r.Count("hunted clauses of the builder rules (5th hunt)", n)
+	r.Floor("hunted clauses of the builder rules (5th hunt)", 3)
+}
+
+// c16NamesBefore lists the pipelines whose output is directly followed by one of the given pieces of text; a variable
+// stands for the pipeline it was declared with.
+func c16NamesBefore(root parse.Node, followers []string) map[string]bool {
+	vars := map[string]string{}
+	walkTmpl(root, func(m parse.Node) bool {
+		if a, ok := m.(*parse.ActionNode); ok && a.Pipe != nil && len(a.Pipe.Decl) == 1 {
+			s := a.Pipe.String()
+			if i := strings.Index(s, ":="); i >= 0 {
+				vars[a.Pipe.Decl[0].Ident[0]] = strings.TrimSpace(s[i+2:])
+			}
+		}
+		return true
+	})
+	out := map[string]bool{}
+	walkTmpl(root, func(m parse.Node) bool {
+		l, ok := m.(*parse.ListNode)
+		if !ok || l == nil {
+			return true
+		}
+		for i, node := range l.Nodes {
+			a, ok := node.(*parse.ActionNode)
+			if !ok || a.Pipe == nil || len(a.Pipe.Decl) > 0 || i+1 >= len(l.Nodes) {
+				continue
+			}
+			t, ok := l.Nodes[i+1].(*parse.TextNode)
+			if !ok {
+				continue
+			}
+			for _, f := range followers {
+				if strings.HasPrefix(string(t.Text), f) {
+					s := a.Pipe.String()
+					if v, isVar := vars[s]; isVar {
+						s = v
+					}
+					out[s] = true
+				}
+			}
+		}
+		return true
+	})
+	return out
 }
